@@ -687,6 +687,11 @@ mod batch_size {
     pub(crate) const EVICTION_BATCH_SIZE: usize = 500;
 }
 
+// Verification hook: the batch size of the expiry purge / size eviction, for oracles
+// that speak about "one maintenance batch".
+#[cfg(mini_moka_verif)]
+pub(crate) const VERIF_EVICTION_BATCH_SIZE: usize = batch_size::EVICTION_BATCH_SIZE;
+
 // TODO: Divide this method into smaller methods so that unit tests can do more
 // precise testing.
 // - sync_reads
@@ -1389,6 +1394,11 @@ where
     /// Number of ops currently queued in the (read, write) channels. Lock free.
     pub(crate) fn verif_queue_lens(&self) -> (usize, usize) {
         (self.read_op_ch.len(), self.write_op_ch.len())
+    }
+
+    /// Capacities of the (read, write) channels; `None` = unbounded.
+    pub(crate) fn verif_queue_caps(&self) -> (Option<usize>, Option<usize>) {
+        (self.read_op_ch.capacity(), self.write_op_ch.capacity())
     }
 
     /// The popularity estimate admission would read for `key` right now.
